@@ -313,6 +313,97 @@ fn random_job(ctx: &Ctx, job: usize, iters: u64) -> Stats {
     st
 }
 
+/// Wide sets (b = 31..64): the universe is far too large to enumerate, so histories work on a
+/// pool of sampled elements (random b-bit values plus neighbours that differ in one high or low
+/// bit), the reference is a BTreeSet, and after every operation `contains` is asked for the whole
+/// pool. `universe()` is left out (its complement cannot be enumerated).
+fn wide_job(ctx: &Ctx, job: usize, histories: u64) -> Stats {
+    use std::collections::BTreeSet;
+    let mut st = Stats::new();
+    let mut rng = Rng::stream(ctx.seed, "C19.wide", job as u64);
+    for h in 0..histories {
+        let bits = *rng.pick(&[31usize, 32, 33, 40, 48, 63, 64]);
+        let mask: u64 = if bits >= 64 { u64::MAX } else { (1u64 << bits) - 1 };
+        let mut pool: Vec<usize> = Vec::new();
+        for _ in 0..4 {
+            let x = rng.next() & mask;
+            pool.push(x as usize);
+            pool.push((x ^ (1u64 << rng.below(bits as u64))) as usize);
+            pool.push((x ^ (1u64 << (bits - 1))) as usize);
+        }
+        pool.push(0);
+        pool.push(mask as usize);
+        pool.sort();
+        pool.dedup();
+        let len = 4 + rng.usize(20);
+        let mut log: Vec<String> = Vec::new();
+        st.evals += 1;
+        st.bump("wide_set_histories");
+        let case = json!({"kind": "wide", "seed": ctx.seed, "job": job, "history": h});
+        util::budget(50_000_000, 1000);
+        let pool2 = pool.clone();
+        let mut ops: Vec<(u64, usize, usize, usize)> = Vec::new();
+        for _ in 0..len {
+            ops.push((rng.below(5), rng.usize(2), rng.usize(2), *rng.pick(&pool)));
+        }
+        let ops2 = ops.clone();
+        let observed = guarded(move || {
+            let env = Rc::new(BDDEnv::new());
+            let sets = [BDDSet::with_env(bits, &env), BDDSet::with_env(bits, &env)];
+            let mut refs: [BTreeSet<usize>; 2] = [BTreeSet::new(), BTreeSet::new()];
+            let mut trace: Vec<String> = Vec::new();
+            for (kind, w, o, x) in &ops2 {
+                match kind {
+                    0 | 1 => {
+                        sets[*w].insert(*x);
+                        refs[*w].insert(*x);
+                        trace.push(format!("{}.insert({:#x})", ["A", "B"][*w], x));
+                    }
+                    2 => {
+                        sets[*w].union(&sets[*o]);
+                        let other = refs[*o].clone();
+                        refs[*w].extend(other);
+                        trace.push(format!("{}.union({})", ["A", "B"][*w], ["A", "B"][*o]));
+                    }
+                    3 => {
+                        sets[*w].intersect(&sets[*o]);
+                        let other = refs[*o].clone();
+                        refs[*w].retain(|e| other.contains(e));
+                        trace.push(format!("{}.intersect({})", ["A", "B"][*w], ["A", "B"][*o]));
+                    }
+                    _ => {
+                        sets[*w].complement(&sets[*o]);
+                        let other = refs[*o].clone();
+                        refs[*w].retain(|e| !other.contains(e));
+                        trace.push(format!("{}.complement({})", ["A", "B"][*w], ["A", "B"][*o]));
+                    }
+                }
+                for s in 0..2 {
+                    for e in &pool2 {
+                        let got = sets[s].contains(*e);
+                        if got != refs[s].contains(e) {
+                            return Err((trace.clone(), s, *e, got));
+                        }
+                    }
+                }
+            }
+            Ok(trace.len())
+        });
+        match observed {
+            Ok(Ok(k)) => {
+                st.add("wide_set_operations", k as u64);
+                st.nt.insert(mix(bits as u64, mix(h, job as u64) ^ 0x19));
+                log.clear();
+            }
+            Ok(Err((trace, s, e, got))) => {
+                st.violate("c19.membership", format!("C19:wide:wrong-membership:b>={}", if bits > 32 { 33 } else { 31 }), format!("b = {}: after [{}] set {} answers contains({:#x}) = {}, the reference says {}", bits, trace.join("; "), ["A", "B"][s], e, got, !got), case);
+            }
+            Err(c) => st.violate("c19.panic", format!("C19:wide:{}", c.signature()), format!("b = {}: {:?}", bits, c), case),
+        }
+    }
+    st
+}
+
 pub fn run(ctx: &Ctx) -> (Stats, Spec) {
     let mut st = Stats::new();
     st.merge(exhaustive(1));
@@ -321,13 +412,17 @@ pub fn run(ctx: &Ctx) -> (Stats, Spec) {
     st.merge(exhaustive(3));
     st.exhaustive.push("b = 3: all 65 536 reference state pairs x every next operation".into());
     let iters = ctx.tier.pick(300u64, 30_000u64);
-    let parts = util::par_jobs(16, |job| random_job(ctx, job, iters));
+    let parts = util::par_jobs(16, |job| {
+        let mut s = random_job(ctx, job, iters);
+        s.merge(wide_job(ctx, job, iters / 6));
+        s
+    });
     st.merge(crate::report::merge_all(parts));
     if ctx.tier == crate::report::Tier::Thorough {
         super::common::miri_tripwire(ctx, &mut st, 150);
     }
     let spec = Spec {
-        rule: "breadth-first over reference states: two sets sharing one environment, each (state pair, next operation) executed on fresh real sets via the shortest history reaching the state; then all memberships of both sets are read twice through contains() and the public bdd field is compared across the queries; plus random histories of length 5-64 [quick] / 5-504 [thorough] with b in 2..4. distinct = (state pair before the last operation, last operation, b); non-trivial = both sets neither empty nor the universe.".into(),
+        rule: "breadth-first over reference states: two sets sharing one environment, each (state pair, next operation) executed on fresh real sets via the shortest history reaching the state; then all memberships of both sets are read twice through contains() and the public bdd field is compared across the queries; plus histories on WIDE sets (b in {31, 32, 33, 40, 48, 63, 64}) over pools of sampled elements and their one-bit neighbours; plus random histories of length 5-64 [quick] / 5-504 [thorough] with b in 2..4. distinct = (state pair before the last operation, last operation, b); non-trivial = both sets neither empty nor the universe.".into(),
         assumptions: vec![
             "only elements < 2^b are used (the statement speaks of b-bit integers)".into(),
             "`complement` is set difference, as the statement says".into(),
@@ -335,6 +430,7 @@ pub fn run(ctx: &Ctx) -> (Stats, Spec) {
         ],
         floors: vec![
             ("self_aliased_ops".into(), 100, "self-aliased operands never exercised".into()),
+            ("wide_set_histories".into(), 200, "wide sets (b >= 31) never exercised".into()),
             ("queries_as_last_op".into(), 500, "queries never exercised as last operation".into()),
             ("distinct_nontrivial".into(), 1_000, "too few non-trivial cases".into()),
         ],
@@ -343,6 +439,14 @@ pub fn run(ctx: &Ctx) -> (Stats, Spec) {
 }
 
 pub fn replay(_ctx: &Ctx, _monitor: &str, case: &Value, st: &mut Stats) {
+    if case.get("kind").and_then(|k| k.as_str()) == Some("wide") {
+        let job = case.get("job").and_then(|j| j.as_u64()).unwrap_or(0) as usize;
+        let h = case.get("history").and_then(|j| j.as_u64()).unwrap_or(0);
+        let mut c2 = _ctx.clone();
+        c2.seed = case.get("seed").and_then(|j| j.as_u64()).unwrap_or(_ctx.seed);
+        st.merge(wide_job(&c2, job, h + 1));
+        return;
+    }
     let bits = case.get("bits").and_then(|b| b.as_u64()).unwrap_or(2) as usize;
     let hist: Vec<SetOp> = case.get("history").and_then(|h| h.as_array()).map(|a| a.iter().filter_map(|x| x.as_str().and_then(SetOp::parse)).collect()).unwrap_or_default();
     if !hist.is_empty() {
